@@ -54,6 +54,23 @@ def overridden(ctx, b, fld, bytef):
                 sites.append((cb, c))       # `x.into()` resolves to the blanket impl, which calls this From impl
     if not sites:
         return False
+    # loop form: every conversion happens in a function whose returned vector is filled only by pushes of tokens it builds itself, and
+    # those take `fld` from somewhere else (not copied from the converted token, not byte-valued)
+    from rules.c15 import pushed_final_tokens
+    if all(cb.f["dk"] != "Closure" for cb, c in sites):
+        good = True
+        for cb in {id(cb): cb for cb, c in sites}.values():
+            fin = pushed_final_tokens(cb)
+            if not fin:
+                good = False
+                break
+            for d, ops in fin:
+                src = sources_of(ctx.prog, cb, ops[fld])
+                copied = any(x[0] == "field" and "SemanticToken" in x[1] and x[2] == fld for x in src)
+                if copied or _is_bad(src, bytef):
+                    good = False
+        if good:
+            return True
     for cb, c in sites:
         res = c.dest[0]
         users = [c2 for c2 in cb.calls() if any(op_place(a) is not None and cb.root(op_place(a))[0] == res for a in c2.args)]
